@@ -67,6 +67,8 @@ pub enum Trap {
     LongInList(u16),
     OrderByOdd(u8),
     LimitOdd(u8),
+    /// join kind x ON condition x tail (every physical join operator and its outer-row bookkeeping)
+    Join(u8, u8, u8),
 }
 
 #[derive(Clone, Debug, Serialize, Deserialize, Hash)]
@@ -130,6 +132,17 @@ fn trap_sql(t: &Trap) -> (String, &'static str) {
             (format!("SELECT a FROM t WHERE a IN ({})", (0..n).map(|i| i.to_string()).collect::<Vec<_>>().join(", ")), "trap.long_in_list")
         }
         Trap::OrderByOdd(k) => (["SELECT a FROM t ORDER BY 1", "SELECT a FROM t ORDER BY 9", "SELECT a FROM t ORDER BY a / 0", "SELECT c, COUNT(*) FROM t GROUP BY c ORDER BY c", "SELECT a FROM t ORDER BY c || 'x', a DESC", "SELECT COUNT(*) FROM t ORDER BY a", "SELECT a FROM t GROUP BY a ORDER BY b"][*k as usize % 7].to_string(), "trap.order_by"),
+        Trap::Join(k, c, w) => {
+            let kind = ["JOIN", "LEFT JOIN", "RIGHT JOIN", "FULL JOIN", "CROSS JOIN", "INNER JOIN", "LEFT OUTER JOIN", "RIGHT OUTER JOIN", "FULL OUTER JOIN"][*k as usize % 9];
+            let on = ["t.a = u.k", "t.a < u.k", "t.a > u.k", "t.a <> u.k", "t.a <= u.k", "t.a = u.k OR t.b = u.k", "t.a = u.k AND t.b < u.k", "1 = 1", "t.a = u.k AND t.c = u.e", "t.a / 0 = u.k", "t.c = u.e", "t.a IS NULL", "u.k IS NULL", "t.a + 1 = u.k", "NULL", "t.a = u.k AND t.a = u.k", "t.e", "u.k = t.a AND u.k > 1"][*c as usize % 18];
+            let tail = ["", " WHERE u.k IS NULL", " WHERE t.a IS NULL", " ORDER BY t.a, u.k", " LIMIT 1", " WHERE t.a > 1 AND u.k > 1", " JOIN u AS v ON v.k = t.a", " RIGHT JOIN u AS v ON v.k < t.a", " FULL JOIN t AS v ON v.a = u.k"][*w as usize % 9];
+            let head = if tail.contains(" AS v ") { "SELECT t.a, u.k" } else { "SELECT *" };
+            if kind == "CROSS JOIN" {
+                (format!("{head} FROM t CROSS JOIN u{tail}"), "trap.join")
+            } else {
+                (format!("{head} FROM t {kind} u ON {on}{tail}"), "trap.join")
+            }
+        }
         Trap::LimitOdd(k) => (["SELECT a FROM t LIMIT -1", "SELECT a FROM t LIMIT 0", "SELECT a FROM t LIMIT 99999999999999999999", "SELECT a FROM t LIMIT 1.5", "SELECT a FROM t LIMIT a", "SELECT a FROM t OFFSET 5", "SELECT a FROM t LIMIT 1 OFFSET -3", "SELECT a FROM t LIMIT NULL"][*k as usize % 8].to_string(), "trap.limit"),
     }
 }
@@ -461,6 +474,8 @@ fn gen_trap() -> BoxedStrategy<Trap> {
         any::<u16>().prop_map(Trap::LongInList),
         any::<u8>().prop_map(Trap::OrderByOdd),
         any::<u8>().prop_map(Trap::LimitOdd),
+        (any::<u8>(), any::<u8>(), any::<u8>()).prop_map(|(k, c, w)| Trap::Join(k, c, w)),
+        (any::<u8>(), any::<u8>(), any::<u8>()).prop_map(|(k, c, w)| Trap::Join(k, c, w)),
     ]
     .boxed()
 }
